@@ -152,6 +152,9 @@ def simp(t):
     return z3.simplify(t) if is_z3(t) else t
 
 
+POW10 = z3.Function("pow10", z3.RealSort(), z3.RealSort())
+
+
 def pydiv(a, d):
     return z3.If(d > 0, a / d, (-a) / (-d))  # z3 Int '/' is floor for a positive divisor
 
@@ -174,6 +177,29 @@ class Path:
         self.pc, self.outcome, self.value, self.obls, self.decisions = pc, outcome, value, obls, decisions
         self.yields = yields
         self.ghost = ghost or {}
+
+
+_QCACHE = {}
+
+
+def has_quantifier(f):
+    if not is_z3(f):
+        return False
+    key = f.get_id()
+    if key in _QCACHE:
+        return _QCACHE[key]
+    seen, stack, found = set(), [f], False
+    while stack:
+        t = stack.pop()
+        if t.get_id() in seen:
+            continue
+        seen.add(t.get_id())
+        if z3.is_quantifier(t):
+            found = True
+            break
+        stack.extend(t.children())
+    _QCACHE[key] = found
+    return found
 
 
 class Explorer:
@@ -204,10 +230,12 @@ class Explorer:
         raise Unsupported("fresh of sort %r" % (sort,))
 
     def feasible(self, extra) -> bool:
+        # path pruning only: quantified hypotheses are left out (over-approximating feasibility is sound - an
+        # infeasible path explored anyway only yields obligations with contradictory hypotheses)
         s = z3.Solver()
         s.set("timeout", self.feas_timeout_ms)
-        s.add(self.axioms)
-        s.add(self.pc)
+        s.add([a for a in self.axioms if not has_quantifier(a)])
+        s.add([c for c in self.pc if not has_quantifier(c)])
         s.add(extra)
         self.n_feas += 1
         return s.check() != z3.unsat  # unknown counts as feasible
@@ -285,13 +313,41 @@ class Explorer:
 
 
 class LoopSpec:
-    """Sidecar invariant for a loop with a symbolic trip count.
+    """Sidecar invariant for a loop whose trip count is symbolic.
 
-    inv(I, frame, k) -> z3 Bool : invariant after k iterations (k is a z3 Int, 0 <= k <= trip)
+    inv(I, frame, k)            -> SMT Bool: invariant after k iterations (0 <= k <= n)
+    length(I, frame, iterable)  -> SMT Int n >= 0: the trip count
+    item(I, frame, iterable, k) -> value bound to the loop target in iteration k
+    modifies: {local name: sort} the body assigns ('int' | 'real' | 'bool'); they are havocked.
+    Emits the obligations <name>.init and <name>.preserve; after the loop the invariant at n is assumed.
     """
 
-    def __init__(self, name, inv, ghost_init=None):
-        self.name, self.inv, self.ghost_init = name, inv, ghost_init
+    def __init__(self, name, inv, length, item, modifies):
+        self.name, self.inv, self.length, self.item, self.modifies = name, inv, length, item, modifies
+
+    def run(self, I, s, f):
+        it = I.eval(s.iter, f)
+        n = self.length(I, f, it)
+        I.ex.oblige(self.name + ".init", self.inv(I, f, z3.IntVal(0)))
+        for v, sort in self.modifies.items():
+            f.locals[v] = I.ex.fresh(sort, "havoc_" + v)
+        if I.ex.choose(2) == 0:
+            k = I.ex.fresh("int", "iter")
+            I.ex.assume(z3.And(k >= 0, k < n))
+            I.ex.assume(self.inv(I, f, k))
+            I.assign(s.target, self.item(I, f, it, k), f)
+            try:
+                I.exec_block(s.body, f)
+            except _Continue:
+                pass
+            except _Break:
+                raise Unsupported("break inside a loop verified by invariant")
+            I.ex.oblige(self.name + ".preserve", self.inv(I, f, k + 1))
+            raise PathAbort()
+        I.ex.assume(n >= 0)
+        I.ex.assume(self.inv(I, f, n))
+        if s.orelse:
+            I.exec_block(s.orelse, f)
 
 
 class Interp:
@@ -856,6 +912,11 @@ class Interp:
                 return r
         if not is_z3(a) and not is_z3(b):
             return self.native_binop(op, a, b)
+        if isinstance(op, ast.Pow) and (not is_z3(a)) and a == 10 and is_z3(b):
+            # 10 ** x with symbolic x: uninterpreted, strictly positive (assumed contract of float pow)
+            r = POW10(to_z3(b) if z3.is_real(b) else z3.ToReal(b))
+            self.ex.assume(r > 0)
+            return r
         if isinstance(op, ast.Add) and (_is_strlike(a) or _is_strlike(b)):
             return z3.Concat(to_z3(a), to_z3(b))
         if isinstance(op, ast.Mod) and isinstance(a, str):
